@@ -20,6 +20,8 @@ CHECKS.update({
           'dimensions 1-4; integer inputs |x| <= 1000 (30 for cubic identities); fuel/forks as above'),
  'C04': M('3 C04', 'Hamilton product against a written-out oracle, associativity, distributivity, conjugate anti-automorphism, norm multiplicativity, q*invert(q)=1 for q != 0, q*v = v + 2 qv x (qv x v + s v) for every q, and for |q|^2 = 1 (a constraint, not a sample) equality with the sandwich product, length preservation and (pq)v = p(qv); Sum/Product folds.'),
  'C05': M('3 C05', 'for every unit quaternion (constraint |q|^2 = 1) the Matrix3/Matrix4/Basis3 conversions equal the textbook matrix, rotate vectors identically, are orthonormal with det +1, respect composition, and Quaternion::from(Matrix3::from(q)) is q or -q on each of the four branches (each branch also proved reachable).'),
+ 'C06': M('3 C06', 'for a symbolic angle (both Rad and Deg), a unit axis (constraint |a|^2 = 1) and any vector: from_axis_angle as Matrix3, Matrix4, Basis3 and Quaternion maps v to Rodrigues\' formula component by component (the oracle uses the same opaque sin/cos symbols; the quaternion needs the double-angle axiom instances), fixes the axis, is orthonormal with det +1; from_angle_x/y/z equal from_axis_angle about the unit axes in all four representations; Matrix2/Basis2::from_angle images of e1, e2; angles add under composition (angle-addition instances); r*invert(r) = one() and rotate_point = rotate_vector(p - origin) for Quaternion, Basis3, Basis2.'),
+ 'C07': M('3 C07', 'Matrix3/Matrix4/Basis3 from Euler{x,y,z} equal Rx(x) Ry(y) Rz(z) and Quaternion::from(Euler) equals qx qy qz and has the same matrix (Rad and Deg); Euler::from(unit q): branch structure at 0.499, gimbal branches report x = 0, y = +-pi/2, regular branch angles lie in the documented ranges, and for |sin y| <= 0.998 the extracted angles rebuild q\'s rotation exactly (all nine entries of Matrix3::from(Euler::from(q)) = Matrix3::from(q)), closed by a solver-checked proof script (radius lemmas, scalar lemma functions, cleared-denominator identities modulo |q| = 1). The 0.13 bound inside the gimbal cone is outside the claim.'),
  'C08': M('3 C08', 'for all five Transform implementations (Decomposed with Quaternion, Basis3, Basis2 rotations; Matrix3 as 2-D and 3-D; Matrix4) with symbolic scale, unit rotation (constraint), displacement, point and vector: concat / * / concat_self equal sequential application, one() is neutral, transform_vector ignores displacement, inverse_transform is None for scale 0 / det 0 and for |scale| > 1e-6 (ulps_eq contract) / det != 0 undoes the transform both ways with inverse_transform_vector agreeing, and conversion to Matrix3/Matrix4 commutes with apply, compose and invert. Matrix4 vector laws are stated for affine matrices (transform_vector drops the homogeneous coordinate), point laws where the homogeneous w is non-zero.'),
  'C10': M('3 C10', 'ortho maps the 8 box corners to the cube corners; frustum maps near and similar far rectangle corners to the z = -1/+1 faces after the divide by w = -z; perspective equals frustum(to_perspective()) and its entries on the whole valid domain; planar maps the z = 0 window to [-1,1]^2, z=-n to -1, z=-f to +1, focal point at (h/2)cot(fovy/2); and for each documented precondition of perspective/frustum/planar, with that precondition violated NO path returns (all end in the panic), while valid parameters have no feasible panic path. tan is opaque with 0<t<pi/2 => tan t > 0, pi symbolic.'),
  'C09': M('3 C09', 'every 3-D look_to/look_at entry point (Matrix4 rh/lh, deprecated aliases, Matrix3, Transform impls, Basis3, Quaternion, Decomposed with Basis3 and Quaternion) for symbolic eye, direction and up in general position (d != 0, d x up != 0): rotation block orthonormal with det +1, eye to origin, d to -z (rh) / +z (lh), up into x = 0, y >= 0, look_at = look_to of center - eye, and agreement between representations; the doubly normalised up row is handled by solver-checked lemmas on the code\'s own terms; 2-D Matrix2/Basis2::look_at both flip branches.'),
